@@ -180,7 +180,7 @@ theorem fptoint_eq (a : Nat) (h1 : 1 ≤ expOf a) :
     let fm : Nat := if signOf a = 1 then Bits.put 33 (-(pos : Int)) else pos
     let sre := realE / 128 % 2
     fptoint a = ⟨((if sre = 1 then 0 else 0) ||| fm % 2^33) % 2^32,
-                 ((if sre = 1 then 1 else 0) ||| b2n (decide (shifted % 2^33 ≠ 0)) % 2) % 2,
+                 ((if sre = 1 then 1 else 0) ||| b2n (decide (shifted % 2^32 ≠ 0)) % 2) % 2,
                  0,
                  ((if sre = 1 then 0 else 0) ||| b2n (decide (Bits.toSigned 8 30 < Bits.toSigned 8 realE)) % 2) % 2⟩ := by
   intro e m realE sra sla shifted pos fm sre
@@ -230,10 +230,10 @@ theorem fptoint_eq (a : Nat) (h1 : 1 ≤ expOf a) :
   have hpos : Leaf.range 33 shifted 64 32 = pos := by
     show _ = shifted / 2^32
     simp only [Leaf.range, Nat.shiftRight_eq_div_pow, Nat.reducePow, Nat.reduceSub, Nat.reduceAdd] at *; omega
-  have hlow : Leaf.range 33 shifted 32 0 = shifted % 2^33 := by
+  have hlow : Leaf.range 32 shifted 31 0 = shifted % 2^32 := by
     simp only [Leaf.range, Nat.shiftRight_eq_div_pow, Nat.reducePow, Nat.reduceSub, Nat.reduceAdd] at *; omega
   rw [hpos, hlow, C07.neg_spec,
-    C08.notEqualConstant_spec 33 _ 0 (by decide) (Nat.mod_lt _ (by decide)) (by decide) (by decide),
+    C08.notEqualConstant_spec 32 _ 0 (by decide) (Nat.mod_lt _ (by decide)) (by decide) (by decide),
     C08.comparatorSU_spec 8 realE _ (by decide) (by simpa using hreL) (by decide)]
   have hsre : realE / 128 % 2 < 2 := Nat.mod_lt _ (by decide)
   have hsel3 : Leaf.or2 1 (Leaf.not1 1 0) (Leaf.not1 1 (realE / 128 % 2)) = 1 := by
@@ -247,7 +247,7 @@ theorem fptoint_eq (a : Nat) (h1 : 1 ≤ expOf a) :
     by_cases hs : signOf a = 1
     · rw [if_pos (by omega), if_pos hs, Nat.mod_mod]
     · rw [if_neg (by omega), if_neg hs, Nat.mod_mod]
-  have hne : LSpec.notEqualConstant (shifted % 2 ^ 33) 0 = b2n (decide (shifted % 2 ^ 33 ≠ 0)) := by
+  have hne : LSpec.notEqualConstant (shifted % 2 ^ 32) 0 = b2n (decide (shifted % 2 ^ 32 ≠ 0)) := by
     unfold LSpec.notEqualConstant
     rw [b2n_inj, Bool.eq_iff_iff]
     simp only [decide_eq_true_eq]
@@ -324,7 +324,7 @@ theorem shift_view_left (m e : Nat) (hm : m < 2^24) (h1 : 151 ≤ e) (h2 : e ≤
 theorem fptoint_fin (s q t S : Nat) (hs : s < 2) (hS : S = q * 2^32 + t) (ht : t < 2^32) (hq : q < 2^31) :
     (if s = 1 then Bits.put 33 (-((S / 2^32 : Nat) : Int)) else S / 2^32) % 2^33 % 2^32
         = Bits.put 32 ((if s = 1 then -1 else 1) * (q : Int)) ∧
-    (S % 2^33 ≠ 0 ↔ (t ≠ 0 ∨ q % 2 = 1)) := by
+    (S % 2^32 ≠ 0 ↔ t ≠ 0) := by
   subst hS
   unfold Bits.put
   simp only [Nat.reducePow, Int.reducePow] at *
@@ -334,7 +334,7 @@ theorem fptoint_fin (s q t S : Nat) (hs : s < 2) (hS : S = q * 2^32 + t) (ht : t
 /-- exponent fields 127..157 (1 ≤ |x| < 2^31) -/
 theorem fptoint_mid (a : Nat) (h1 : 127 ≤ expOf a) (h2 : expOf a ≤ 157) :
     (fptoint a).denorm = 0 ∧ (fptoint a).invalid = 0 ∧ (fptoint a).r = f2iR a ∧
-    (fptoint a).p_lost = b2n (f2iLost a || decide (mag a / 2^149 % 2 = 1)) ∧ fitsInt a = true := by
+    (fptoint a).p_lost = b2n (f2iLost a) ∧ fitsInt a = true := by
   have hEq := fptoint_eq a (by omega)
   simp only [] at hEq
   rw [hEq]
@@ -372,8 +372,8 @@ theorem fptoint_mid (a : Nat) (h1 : 127 ≤ expOf a) (h2 : expOf a ≤ 157) :
   · rw [hinv]
   · rw [f1, v4]
   · rw [b2n_mod2, b2n_inj, Bool.eq_iff_iff]
-    simp only [Bool.or_eq_true, decide_eq_true_eq]
-    rw [f2, v4, v5]
+    simp only [decide_eq_true_eq]
+    rw [f2, v5]
   · simp only [decide_eq_true_eq]
     have : m * 2^(e-1) < 2^24 * 2^156 :=
       Nat.mul_lt_mul_of_lt_of_le hm (Nat.pow_le_pow_right (by decide) (by omega)) (Nat.two_pow_pos _)
@@ -405,7 +405,7 @@ theorem fptoint_big (a : Nat) (h1 : 158 ≤ expOf a) (h2 : expOf a ≤ 254) :
 /-- exponent fields 1..126 (0 < |x| < 1): result 0, precision lost -/
 theorem fptoint_small (a : Nat) (h1 : 1 ≤ expOf a) (h2 : expOf a ≤ 126) :
     (fptoint a).denorm = 0 ∧ (fptoint a).invalid = 0 ∧ (fptoint a).r = f2iR a ∧
-    (fptoint a).p_lost = b2n (f2iLost a || decide (mag a / 2^149 % 2 = 1)) ∧ fitsInt a = true := by
+    (fptoint a).p_lost = b2n (f2iLost a) ∧ fitsInt a = true := by
   have hEq := fptoint_eq a h1
   simp only [] at hEq
   rw [hEq]
